@@ -78,6 +78,7 @@ fn main() {
                 ("C08", Some(i)) => c08::check_one(&i),
                 ("C10", Some(i)) => c10::check_one(&i),
                 ("C11", Some(i)) => c11::check_one(&i),
+                ("C14", Some(i)) => c14::check_one(&i),
                 ("C15", Some(i)) => c15::check_one(&i),
                 _ => { println!("REPLAY: nothing to re-run (no concrete input in file)"); std::process::exit(0) }
             };
